@@ -164,8 +164,8 @@ UNITS = {
         "contracts": ["contracts/mime.vc", "contracts/request.vc", "contracts/range.vc", "contracts/static.vc"],
     },
     "app": {
-        "preludes": ["shims/core.rs", "shims/env.rs"],
-        "specs": ["contracts/spec/hv.rs", "contracts/spec/lookup.rs", "contracts/spec/cors.rs", "contracts/spec/headers.rs", "contracts/spec/frames.rs", "contracts/spec/app.rs"],
+        "preludes": ["shims/core.rs", "shims/bytes.rs", "shims/env.rs", "shims/fs.rs"],
+        "specs": ["contracts/spec/hv.rs", "contracts/spec/lookup.rs", "contracts/spec/cors.rs", "contracts/spec/headers.rs", "contracts/spec/frames.rs", "contracts/spec/static.rs", "contracts/spec/app.rs", "contracts/spec/dispatch.rs"],
         "sources": [
             SYMBOL_SRC,
             ("src/http/mod.rs", ["struct:Version", "const:VERSION"]),
@@ -194,7 +194,7 @@ UNITS = {
     },
     "controllers": {
         "preludes": ["shims/core.rs", "shims/bytes.rs", "shims/env.rs", "shims/fs.rs"],
-        "specs": ["contracts/spec/hv.rs", "contracts/spec/lookup.rs", "contracts/spec/cors.rs", "contracts/spec/headers.rs", "contracts/spec/frames.rs", "contracts/spec/app.rs"],
+        "specs": ["contracts/spec/hv.rs", "contracts/spec/lookup.rs", "contracts/spec/cors.rs", "contracts/spec/headers.rs", "contracts/spec/frames.rs", "contracts/spec/static.rs", "contracts/spec/app.rs"],
         "sources": [
             SYMBOL_SRC,
             ("src/http/mod.rs", ["struct:Version", "const:VERSION"]),
@@ -231,7 +231,7 @@ UNITS = {
     },
     "forms": {
         "preludes": ["shims/core.rs", "shims/bytes.rs", "shims/env.rs", "shims/fs.rs", "shims/forms.rs"],
-        "specs": ["contracts/spec/hv.rs", "contracts/spec/lookup.rs", "contracts/spec/frames.rs"],
+        "specs": ["contracts/spec/hv.rs", "contracts/spec/lookup.rs", "contracts/spec/frames.rs", "contracts/spec/static.rs"],
         "sources": [
             SYMBOL_SRC,
             ("src/header/mod.rs", ["struct:Header", "consts:Header"]),
@@ -298,6 +298,14 @@ UNITS = {
         ],
         "contracts": ["contracts/request.vc", "contracts/multipart.vc"],
     },
+    "mime": {
+        "preludes": ["shims/core.rs"],
+        "specs": ["contracts/spec/mime.rs"],
+        "sources": [
+            ("src/mime_type/mod.rs", ["struct:MimeType", "consts:MimeType", "fn:MimeType::get_extension_from_filename", "fn:MimeType::detect_mime_type"]),
+        ],
+        "contracts": ["contracts/mime.vc"],
+    },
 }
 for k, v in UNITS.items():
     v["name"] = k
@@ -315,14 +323,19 @@ def owner(unit, f):
         if f.kind == "precondition" and f.snippet.startswith("false@"):
             return "C13"
         if f.fn == "StaticResourceController::is_matching" and f.kind == "postcondition":
-            return "C09"
-        return "C04"
+            return ("C09", "C02")
+        if f.kind in SAFETY_KINDS:
+            return "C04"
+        return ("C02", "C04") if "frame_ok" in f.snippet or "err_registered" in f.snippet else "C02"
+    if unit == "mime":
+        return "C02"
     if unit == "range_parse":
         # a panic in the range parser is both a crash of the server (C04) and a parser that does not report an error (C20);
         # the whole-file clauses are what C02 needs from it
         if f.kind in SAFETY_KINDS:
             return ("C04", "C20")
-        return ("C03", "C02")
+        sn = f.snippet.replace(" ", "")
+        return ("C03", "C02") if ("s_bytes0" in sn or "num(a)==0" in sn or "part_ok" in sn) else "C03"
     if unit == "response_gen" and f.fn == "Response::generate":
         return "C15"
     if unit == "multipart":
@@ -354,6 +367,29 @@ PROPS = {
         ],
         "assumptions": ["the serialise-then-parse round trip itself is not proved; it is exercised by the native falsifier (300 random multi-part and single-body responses per run)",
                         "Response::parse requires input of at most i32::MAX bytes (its byte counters are i32)"],
+    },
+    "C02": {
+        "units": ["static", "range_parse", "mime", "app", "controllers", "response_gen"],
+        "level": "proof",
+        "falsifier": ["statics"],
+        "case_prefixes": ["c02_"],
+        "counts": counts_for("C02"),
+        "samples": [
+            "StaticResourceController::is_matching / postcondition / res == static_match(method, target): the documented lookup (file, else directory index, else .html) on the path of the parsed target",
+            "StaticResourceController::process / postcondition / in the C02 domain without a Range header: 200 and exactly one part = all bytes of the selected file, size label, media type of that file",
+            "Range::get_content_range_list / postcondition / which file is read: served directory ++ path of the target",
+            "Range::parse_content_range / postcondition / every part is the requested slice of the file; the implicit request bytes=0- always yields one part starting at 0 that reaches the end",
+            "MimeType::detect_mime_type / postcondition / res@ == mime_of(name): the 76-row registry table; lemma_mime_registry_1..9: the value of every suffix / type constant",
+            "App::execute / postcondition / a GET / HEAD that no built-in endpoint claims goes to the static lookup (200 + whole file) or to the not-found page (404; 500 only if a custom 404.html exists and cannot be read)",
+        ],
+        "assumptions": [
+            "domain (c02_domain): the target parses; its path starts with '/', holds no '..', no '#' (a '#' before the first '?' stays in the path and is cut off when the controller re-parses path ++ suffix) and does not end in '.' (path ++ '.html' would hold '..'); the selected file is a regular readable file that is not itself a symbolic link (for a link the resolved target is read; nothing is proved about it)",
+            "file system: quiescent during the request; metadata().len() is the content length; reading an openable regular file succeeds; lstat succeeds on an existing path (shims/fs.rs)",
+            "url-build-parse dependency: deterministic; a target that starts with '/' and holds neither '?' nor '#' is its own path (axiom_url_plain_path, read off the dependency's source, conformance-tested); that query strings / fragments are cut off is the dependency's behaviour and only assumed in this form",
+            "std::path::Path::extension as specified by ext_of (conformance-tested)",
+            "the bytes on the wire (status line, Content-Type, Content-Length, body) are Response::generate_response's proved postcondition (C05 / C15); Server::process_request hands App::execute's response to it (C04 unit server)",
+            "Range requests are C03; HEAD / OPTIONS are C09",
+        ],
     },
     "C16": {
         "units": ["multipart"],
